@@ -341,11 +341,16 @@ def _name_retypes(r: Rule) -> bool:
     fn: ast.FunctionDef = r.node  # type: ignore
     tname = fn.args.args[1].arg
     cfg = CFG(fn)
+    val_alias = {t.id for s2 in walk_local(fn) if isinstance(s2, ast.Assign) and attr_chain(s2.value) == (tname, "value") for t in s2.targets if isinstance(t, ast.Name)}
+
+    def is_value(e) -> bool:
+        return attr_chain(e) == (tname, "value") or (isinstance(e, ast.Name) and e.id in val_alias)
+
     tests = []
     for n in cfg.nodes:
         c = n.cond
         if n.kind == "test" and isinstance(c, ast.Compare) and len(c.ops) == 1 and isinstance(c.ops[0], (ast.In, ast.NotIn)):
-            if attr_chain(c.left) == (tname, "value") and (attr_chain(c.comparators[0]) or ("",))[-1] == "keywords":
+            if is_value(c.left) and (attr_chain(c.comparators[0]) or ("",))[-1] == "keywords":
                 tests.append(n)
     if not tests:
         return False
@@ -354,7 +359,7 @@ def _name_retypes(r: Rule) -> bool:
     def transfer(n, f):
         st = n.stmt
         if n.kind == "stmt" and isinstance(st, ast.Assign) and any(attr_chain(x) == (tname, "type") for x in st.targets):
-            typed = attr_chain(st.value) == (tname, "value")
+            typed = is_value(st.value)
             return frozenset((kw, typed) for kw, _ in f)
         return f
 
